@@ -72,6 +72,9 @@ class Capture:
         self.inline_in = None         # (max score, [(id, universe, geom sexp)]) before inline_cells
         self.inline_out = None        # [(id, geom sexp)] after
         self.lattices = []            # one dict per develop_lattice call: inputs and the cells it created
+        self.fill_frames = {}         # cell -> (token of its FILL transformation | None, [tokens of its TRCLs]) as pot_fill saw it
+        self.fill_moves = {}          # cell created by pot_fill -> tokens of the transformations its filler went through
+        self.geomcomp = None          # constructGeomCompT4: {'request': sexp, 'expected': str}
         self.pt_calls = []            # top-level cell_transform / pot_transform calls: {'request': sexp, 'expected': str}
         self.written = None           # what writeT4Geometry was handed: {'surfs': {id: (kind, params, tr)}, 'vols': {...}, 'skipped': [...]}
         self.error = None
@@ -301,6 +304,12 @@ def convert_capture(deck_text, args=()):
                 res = orig(self, cell_key, transform, cache=cache)
             finally:
                 ptd['depth'] -= 1
+            if ptd['depth'] == 0:
+                try:
+                    ptd.setdefault('moves', {})[int(res)] = (ptd.setdefault('moves', {}).get(int(cell_key), [])
+                                                            + ([pt_tok(transform)] if len(transform) else []))
+                except Exception as e:  # noqa
+                    cap.error = 'fillmoves: %r' % (e,)
             if snap is not None:
                 try:
                     pt_finish(self, snap, 'cell %d %d %d' % (int(cell_key), pt_tok(transform), 1 if cache else 0), '%d' % int(res))
@@ -336,6 +345,59 @@ def convert_capture(deck_text, args=()):
             return res
         return pot_transform
 
+    def mk_gc(orig):
+        def constructGeomCompT4(dicVol, dic_cellMCNP):
+            out = orig(dicVol, dic_cellMCNP)
+            try:
+                from . import lean as _lean
+                vols, owners = [], []
+                for k, v in dicVol.items():
+                    vols.append('(v %d %s %s)' % (int(k), 'F' if v.fictive else 'R',
+                                                  ' '.join('(%d %d)' % (int(a), int(b)) for a, b in v.idorigin)))
+                    owners.append(int(v.idorigin[0][0]) if v.idorigin else int(k))
+                cells = []
+                for o in sorted(set(owners)):
+                    if o in dic_cellMCNP:
+                        c = dic_cellMCNP[o]
+                        cells.append('(c %d %s %s)' % (o, _lean.hx(str(c.materialID)),
+                                                       '-' if c.density is None else _lean.hx(str(c.density))))
+                cap.geomcomp = {
+                    'request': '(gc (vols %s) (cells %s))' % (' '.join(vols), ' '.join(cells)),
+                    'expected': ('ok ' + ' '.join('(g %s %s %s)' % (_lean.hx(str(k)), g.volumeNumberMaterial, g.listVolumeId)
+                                                  for k, g in out.items())).rstrip()}
+            except Exception as e:  # noqa
+                cap.error = 'geomcomp-encode: %r' % (e,)
+            return out
+        return constructGeomCompT4
+
+    def mk_fill(orig):
+        def pot_fill(self, key, dict_universe, inline_filled=False, inline_filling=False):
+            from t4_geom_convert.Kernel.Volume.CellMCNP import CellRef
+            try:
+                cell = self.dic_cell_mcnp[key]
+                if cell.fillid is not None:
+                    cap.fill_frames[int(key)] = (pt_tok(cell.filltr) if cell.filltr is not None and len(cell.filltr) else None,
+                                                 [pt_tok(t) for t in (cell.trcl or []) if len(t)])
+            except Exception as e:  # noqa
+                cap.error = 'fillframes: %r' % (e,)
+            res = orig(self, key, dict_universe, inline_filled, inline_filling)
+            try:
+                if self.dic_cell_mcnp[key].fillid is not None:
+                    moves = ptd.setdefault('moves', {})
+                    for k in res:
+                        g = self.dic_cell_mcnp[k].geometry
+                        y = g[2] if isinstance(g, (tuple, list)) and len(g) == 3 else None
+                        if isinstance(y, CellRef):
+                            moves[int(k)] = list(moves.get(int(y.cell), []))
+                            cap.fill_moves[int(k)] = moves[int(k)]
+            except Exception as e:  # noqa
+                cap.error = 'fillmoves: %r' % (e,)
+            return res
+        return pot_fill
+
+    import t4_geom_convert.Kernel.FileHandlers.Writer.WriteT4GeomComp as WGC
+    patch(WGC, 'constructGeomCompT4', mk_gc)
+
     import t4_geom_convert.Kernel.Volume.ConstructVolumeT4 as CVT
     patch(CVT, 'inline_cells', mk_inline)
 
@@ -345,6 +407,7 @@ def convert_capture(deck_text, args=()):
     else:
         patch(cls, 'develop_lattice', mk_lat)
         patch(cls, 'cell_transform', mk_ct)
+        patch(cls, 'pot_fill', mk_fill)
         patch(cls, 'pot_transform', mk_pt)
         patch(cls, 'pot_complement', mk_compl)
         patch(cls, 'pot_convert', mk_conv)
